@@ -37,6 +37,8 @@ UNIT = Unit(
                     Inject(("after_let", "result"), """proof { assert(result@.n == (x as int) * (red.0 as int)); assert(result@.d == 1 * (red.1 as int));
                         assert(red.0 as int * f0.d == f0.n * (red.1 as int));
                         lemma_floor_frac_eq(x as int, red.0 as int, red.1 as int, f0.n, f0.d); }""")]),
+        Fn(M, "request_pool_key", home="C15", implicit_props=("C09", "C15"),
+           ensures=[C("canonical", "res == spec_req_key(data@)", "C15", "C01")]),
         Fn(M, "get_swap_transactions", home="C15", implicit_props=("C09", "C15"),
            requires=[C("wf", "state.coins.wf()")],
            ensures=[C("selected", "selected(state.transactions@, res@, |tx: Transaction| is_swap_req(*state, tx))", "C15", "C01")],
